@@ -518,7 +518,13 @@ func (r *Resolver) ArenaResolveGraphQLResponse(ctx *Context, response *GraphQLRe
 	if inflight != nil && ctx.GetDeduplicationData != nil {
 		inflight.SharedData = ctx.GetDeduplicationData(ctx.ctx)
 	}
-	r.inboundRequestSingleFlight.FinishOk(inflight, buf.Bytes())
+	if cancelErr := ctx.ctx.Err(); cancelErr != nil {
+		// The leader's own client went away while it was resolving, so its response may be
+		// degraded by its own cancellation (aborted fetches). Never hand that to followers.
+		r.inboundRequestSingleFlight.FinishErr(inflight, cancelErr)
+	} else {
+		r.inboundRequestSingleFlight.FinishOk(inflight, buf.Bytes())
+	}
 	// all data is written to the client
 	// we're safe to release our buffer
 	r.responseBufferPool.Release(responseArena)
